@@ -22,6 +22,7 @@ func selftest(o opts, engine int) int {
 	if err != nil {
 		fatal2("%v", err)
 	}
+	os.Setenv("VERIFSIM_REPO", s.Pristine)
 	cases := 320
 	if o.cases > 0 {
 		cases = o.cases
